@@ -298,6 +298,8 @@ def x_rules(p: Project, rep: Report):
     want = set("ABCDEFGHIJKLMNOPQRSTUVWXYZ0123456789._/")
     miss = sorted(want - cs) if cs is not None else sorted(want)
     rep.check("X-R1", "regex:tag-alphabet", cs is not None and not miss, f"the tag class lacks {miss}: elements with such tags (and everything after them) are silently skipped by finditer()" if miss else "", r.where)
+    unbounded_tag = len(it) == 1 and it[0][0] in (c.MAX_REPEAT, c.MIN_REPEAT) and it[0][1][1] is c.MAXREPEAT
+    rep.check("X-R1", "regex:tag-any-length", unbounded_tag, "the tag group is a repetition with a finite upper bound: a (vendor / unknown) tag whose name - or whose end tag, which carries the '/' in the same group - is longer is not matched and finditer() silently skips it, so an aggregate opens without closing or its children leak into the enclosing aggregate" if not unbounded_tag else "", r.where)
     rep.check("X-R1", "regex:tag-excludes-delimiters", cs is not None and not ({"<", ">"} & cs), "the tag class admits '<' or '>'" if cs is None or ({"<", ">"} & cs) else "", r.where)
     top = list(r.tree)
     ok = top and top[0][0] is c.LITERAL and top[0][1] == ord("<")
@@ -310,6 +312,14 @@ def x_rules(p: Project, rep: Report):
     rep.check("X-R2", "regex:closetag-backreference", ok, "the end tag of a data element is not required to repeat the start tag: <A>1</B> is read as a closed <A>" if not ok else "", r.where)
     ok = path is not None and any(x[0] == "repeat" and x[1] == 0 and x[2] == 1 for x in path)
     rep.check("X-R2", "regex:closetag-optional", ok, "end tags of data elements are no longer optional" if not ok else "", r.where)
+
+    rep.rule("X-R7", "text that follows a token is always captured so that it can be refused: the tail group is optional on its own, not inside the optional end-tag group (else text after a CDATA section or after data without an end tag is skipped by finditer() unseen)")
+    _ti, tpath = r.find_group("tail")
+    _ci, cpath = r.find_group("closetag")
+    t_reps = {x[3] for x in (tpath or []) if x[0] == "repeat"}
+    c_reps = {x[3] for x in (cpath or []) if x[0] == "repeat"}
+    shared = t_reps & c_reps
+    rep.check("X-R7", "regex:tail-independent-of-closetag", not shared and not any(x[0] == "branch" for x in (tpath or [])), "the tail group is nested in the optional end-tag group: tail text is only seen after an explicit end tag" if shared else "", r.where)
 
     rep.rule("X-R3", "the CDATA content cannot extend across its ']]>' terminator (non-greedy) yet admits every character including a single ']' (not a class excluding ']')")
     items, _ = r.find_group("cdata")
@@ -483,3 +493,47 @@ def p_r6_every_match_dispatched(p: Project, rep: Report):
             bad = PT.simple_conds(q.conds)
     rep.unit("feedmatch_paths", n)
     rep.check("P-R6", "_feedmatch:every-match-starts-or-ends-an-element", bad is None, f"a path of _feedmatch returns without calling start() or end() (taken when {bad}): the matched tag is dropped" if bad is not None else "", ploc(p, fm0))
+
+
+def p_r7_every_match_fed(p: Project, rep: Report):
+    """feed() hands every match of the token iterator to the dispatcher"""
+    from .flat import flat
+
+    rep.rule("P-R7", "feed() processes every token of the input: the loop over the pattern's matches has no early exit (no break / return inside it) - what follows the root's end tag must still reach start()/end(), which refuse it")
+    ci = builder(p)
+    fd0 = ci.own_func("feed")
+    if fd0 is None:
+        rep.note("P-R7 undecided: TreeBuilder has no feed()")
+        return
+    fd = flat(p, PARSER, fd0, ci, keep=("_feedmatch",))
+    loops = [x for x in ast.walk(fd) if isinstance(x, ast.For) and any(isinstance(c, ast.Call) and isinstance(c.func, ast.Attribute) and c.func.attr in ("finditer", "findall", "scanner") for c in ast.walk(x.iter))]
+    if not loops:
+        ex = Expander(fd)
+        loops = [x for x in ast.walk(fd) if isinstance(x, ast.For) and "finditer" in ex.t(x.iter)]
+    if not loops:
+        rep.note("P-R7 undecided: feed() has no loop over the pattern's matches")
+        return
+    for lp in loops:
+        exits = []
+
+        def scan(stmts, depth=0):
+            for st in stmts:
+                if isinstance(st, (ast.Break, ast.Return)):
+                    exits.append(st)
+                elif isinstance(st, (ast.For, ast.While)):
+                    # a nested loop's break leaves only that loop; a return still leaves feed()
+                    for x in ast.walk(st):
+                        if isinstance(x, ast.Return):
+                            exits.append(x)
+                elif isinstance(st, (ast.FunctionDef, ast.ClassDef)):
+                    continue
+                else:
+                    for fld in ("body", "orelse", "finalbody"):
+                        sub = getattr(st, fld, None)
+                        if isinstance(sub, list):
+                            scan(sub)
+                    for h in getattr(st, "handlers", []) or []:
+                        scan(h.body)
+
+        scan(lp.body)
+        rep.check("P-R7", "feed:no-early-exit-from-token-loop", not exits, f"the token loop is left early ({text(exits[0])[:40]} at line {exits[0].lineno}): the rest of the input is never looked at, so a second top-level element or a stray tag after the root is accepted" if exits else "", ploc(p, exits[0] if exits else lp))
